@@ -252,6 +252,8 @@ class C02(Prop):
         for m in big_messages(rng, [20000, 60000]):
             big.append(S.d("Dns", G.render_dns(m, G.Layout(rng, mode='lib'))[0]))
         s.append(("big", big))
+        merge = [S.d("Dns", G.render_dns(m, G.Layout(rng, mode='plain'))[0]) for m in merge_candidate_messages()]
+        s.append(("names-equal-only-under-unicode-folding", merge))
         return s
 
     def view(self, case, line):
@@ -597,6 +599,7 @@ class C05(Prop):
              ("nested-names", ["E Dns " + G.canon(nested_names_msg(k)) for k in range(1, 65)]),
              ("around-0x3FFF", straddle_cases(range(-48, 49, 4) if tier == "quick" else range(-48, 49))),
              ("hundreds-of-distinct-names-reused", ["E Dns " + G.canon(many_names_msg(k)) for k in (300, 400)]),
+             ("names-equal-only-under-unicode-folding", ["E Dns " + G.canon(m) for m in merge_candidate_messages()]),
              ("big", ["E Dns " + G.canon(m) for m in big_messages(rng, [16300, 16500, 30000, 60000] if tier == "quick"
                                                                   else [16000, 16300, 16384, 16500, 30000, 50000, 60000, 64000])])]
         return s
@@ -620,6 +623,20 @@ def name_seq_msg(names, spacer=0, rng=None):
         an = [('RR', 10, ('N', []), 1, 0, ('G', [bytes(spacer)]))]
     return ('Dns', 1, ('F', 0, 0, 0, 0, 0, 0, 0, 0, 0), [], an,
             [('RR', 2, ('N', list(n)), 1, 0, ('G', [('N', list(n2))])) for n, n2 in zip(names[0::2], names[1::2] + [[]])], [])
+
+
+def merge_candidate_messages():
+    """messages with names that an over-eager encoder could merge: equal only under Unicode (not ASCII) case folding,
+    or printing alike with different label boundaries; every ordered pair, the second one in a compressible position"""
+    pool = [b"k", b"K", "\u212a".encode(), "\u00e9".encode(), "\u00c9".encode(), "m\u00dcnchen".encode(), "m\u00fcnchen".encode(),
+            "\u0130".encode(), "i\u0307".encode(), b"i", "\u00df".encode(), "\u1e9e".encode(), b"ss", b"a.b", b"a"]
+    tails = [[b"example", b"org"], [b"b", b"example", b"org"]]
+    out = []
+    for x in pool:
+        for y in pool:
+            for t in tails:
+                out.append(name_seq_msg([[x] + t, [b"mail", y] + t, [y] + t, [b"www", x] + t]))
+    return out
 
 
 def rdata_offset_sweep(rng, amax=16, bmax=24):
